@@ -151,7 +151,10 @@ const POWI_EXPS: [i32; 24] = [
 
 fn powi_base(rng: &mut Rng, s: Lay) -> u128 {
     let one = 1u128 << s.f;
-    let v = match rng.below(16) {
+    let v = match rng.below(18) {
+        // any bit pattern (boundary / structured / limb-structured / random): the running power overflows or wraps
+        16 => gen_bits(rng, s),
+        17 => gen_limb_structured(rng, s),
         14 | 15 => {
             // tiny and small power-of-two magnitudes 2^-k (running powers underflow to exactly 0)
             let k = 1 + rng.below(s.f as u64) as u32;
